@@ -366,12 +366,13 @@ Journal (same layout, `harness/c03_trans.cc`, section `stage 5`); octagon op cod
   `refine(var, relsym, expr, den)`), `ogaff`, `obaff`, `oapre`, `ogapre`, `ounc` (as the BD ones),
   `[o]gaffl / [o]gaprel <le|ge|eq> <bl> <lcoeffs> <br> <rcoeffs>` (`generalized_affine_(pre)image(lhs, relsym, rhs)`):
   `after` is a matrix, `E` or `X:<class>`
-* `[o]meet [o]join [o]diff [o]tel <closed2> <matrix2>`, `[o]concat <n2> <closed2> <matrix2>`, `[o]embed <k>`,
+* `[o]meet [o]join [o]tel <closed2> <matrix2>`, `[o]diff <closed2> <matrix2> <y_contains_x> <pieces>` (the last two: the real
+  intermediate data of `difference_assign`, see the harness), `[o]concat <n2> <closed2> <matrix2>`, `[o]embed <k>`,
   `[o]project <k>`, `[o]rmdims <vars|->`, `[o]rmhi <newdim>`, `[o]mapdims <pf>` (`x` = undefined), `[o]expand <var> <k>`,
   `[o]fold <vars|-> <dest>`: `after` is `<n'>|<closed'>|<matrix or ->`, `E` or `X:<class>`
 
 Verdicts as above (`ok` / `okle` / `MISMATCH … model` / `NAN` / `skip … coeff` / `CRASH`, second line `JUDGE-FAIL`), and
-`judged <id> <op> <tag> <J|F|->` for an operation without a model (`[o]tel`, and `[o]diff` while its model is missing): only the
+`judged <id> <op> <tag> <J|F|->` for an operation without a model (`[o]tel`): only the
 K1 judge speaks.  The judge: the exact result is a UNION of K1 reference polyhedra (`pieces`), every piece must be
 contained in `after` (`E`: every piece infeasible); `tel`: `X ⊆ after` and every row of `after` is non-decreasing along
 every point of `Y` (`X + cone(Y) ⊆ after` for a closed convex `after`); where the operation is exact on γ for every `T`
@@ -398,6 +399,7 @@ inductive Op5 where
   | lhs (oct pre : Bool) (rel : RelSym) (bl : Int) (lcf : List Int) (br : Int) (rcf : List Int)
   | bin (oct : Bool) (kind : String) (c2 : Bool) (m2 : List (List ExtRat))
   | concat (oct : Bool) (n2 : Nat) (c2 : Bool) (m2 : List (List ExtRat))
+  | diff (oct : Bool) (c2 : Bool) (m2 : List (List ExtRat)) (yContainsX : Bool) (pieces : Option (List (Option (List (List ExtRat)))))
   | embed (oct project : Bool) (k : Nat)
   | rmdims (oct : Bool) (vars : List Nat)
   | rmhi (oct : Bool) (k : Nat)
@@ -411,7 +413,8 @@ def nArgs5 (bop : String) : Option Nat :=
   | "refv" | "gaff" | "gapre" | "gaffl" | "gaprel" => some 5
   | "baff" => some 6
   | "unc" | "embed" | "project" | "rmdims" | "rmhi" | "mapdims" => some 1
-  | "meet" | "join" | "diff" | "tel" | "expand" | "fold" => some 2
+  | "meet" | "join" | "tel" | "expand" | "fold" => some 2
+  | "diff" => some 4
   | "concat" => some 3
   | _ => none
 
@@ -449,8 +452,14 @@ def parseOp5 (oct : Bool) (bop : String) (args : List String) : Option Op5 :=
   | "mapdims", [pf] => do some (.mapdims oct (← parsePf pf))
   | "expand", [v, k] => do some (.expand oct (← v.toNat?) (← k.toNat?))
   | "fold", [vs, d] => do some (.fold oct (← parseNats vs) (← d.toNat?))
+  | "diff", [c2, m2, ycx, ps] => do
+    let pieces : Option (List (Option (List (List ExtRat)))) :=
+      if ps == "?" then none
+      else if ps == "-" then some []
+      else (ps.splitOn "&").mapM fun t => if t == "N" then some none else (parseMat2 t).map some
+    some (.diff oct (c2 == "1") (← parseMat2 m2) (ycx == "1") pieces)
   | kind, [c2, m2] =>
-    if ["meet", "join", "diff", "tel"].contains kind then do some (.bin oct kind (c2 == "1") (← parseMat2 m2)) else none
+    if ["meet", "join", "tel"].contains kind then do some (.bin oct kind (c2 == "1") (← parseMat2 m2)) else none
   | _, _ => none
 
 /-- the integers the operation converts to `T` (bounded `T`: a case with one of them beyond the range is outside the model) -/
@@ -467,7 +476,7 @@ def Op5.den : Op5 → Int
   | .refv _ _ _ d .. => d | .ogaff _ _ d .. => d | .obaff _ d .. => d | _ => 1
 
 def Op5.isOct : Op5 → Bool
-  | .con o .. => o | .refv o .. => o | .lhs o .. => o | .bin o .. => o | .concat o .. => o | .embed o .. => o
+  | .con o .. => o | .refv o .. => o | .lhs o .. => o | .bin o .. => o | .concat o .. => o | .embed o .. => o | .diff o .. => o
   | .rmdims o _ => o | .rmhi o _ => o | .mapdims o _ => o | .expand o .. => o | .fold o .. => o
   | _ => true
 
@@ -530,7 +539,15 @@ def run5 (R : Rnd) (n : Nat) (closed : Bool) (before : List (List ExtRat)) : Op5
     | "meet", true => ofLat true (octLatIntersection R n closed m1 c2 y)
     | "join", false => ofLat false (bdsLatUpperBound R n closed m1 c2 y)
     | "join", true => ofLat true (octLatUpperBound R n closed m1 c2 y)
-    | _, _ => .nomodel                 -- diff: the model takes the results of contains / relation_with / constraints as arguments; tel: no model
+    | _, _ => .nomodel                 -- tel: no model (round trip through C_Polyhedron)
+  | .diff _ _ _ _ none => .nomodel     -- a step of the algorithm threw when the harness executed it on copies
+  | .diff false c2 m2 ycx (some ps) =>
+    -- the control flow of `difference_assign` over the REAL results of contains / constraints / relation_with / add_constraint / is_empty
+    ofLat false (bdsLatDifference R n closed (DBM.ofLists n before).e c2 (DBM.ofLists n m2).e ycx
+      (ps.map fun z => z.map fun rows => (DBM.ofLists n rows).e))
+  | .diff true c2 m2 ycx (some ps) =>
+    ofLat true (octLatDifference R n closed (OctM.ofLists n before).e c2 (OctM.ofLists n m2).e ycx
+      (ps.map fun z => z.map fun rows => (OctM.ofLists n rows).e))
   | .concat false n2 c2 m2 =>
     ofLat false (bdsLatConcatenate R n closed (DBM.ofLists n before).e n2 c2 (DBM.ofLists n2 m2).e)
   | .concat true n2 c2 m2 =>
@@ -603,6 +620,8 @@ def tag5 (R : Rnd) (n : Nat) (closed : Bool) (before : List (List ExtRat)) : Op5
         "." ++ ogapreTag R n closed before v (lhsNewRelSym r (el v)) (el v) ((List.range n).map er) else ""
     s!"{relTag r}{deleg}.lhs{t}{if t = 2 then (if common then ".shared" else ".disjoint") else if t = 1 then (if el (lhsForm el n).2 < 0 then ".a-" else ".a+") else ""}.rhs{exprT er (lastNonzero er n)}"
   | .bin _ kind c2 _ => s!"{kind}.c{bflag closed}{bflag c2}"
+  | .diff _ c2 _ ycx ps =>
+    s!"diff.c{bflag closed}{bflag c2}.{if ycx then "contained" else match ps with | none => "threw" | some l => s!"pieces{min l.length 4}"}"
   | .concat _ n2 c2 _ => s!"n2={n2}.c{bflag closed}{bflag c2}"
   | .embed _ _ k => s!"k={k}.c{bflag closed}"
   | .rmdims _ vs => s!"rm{vs.length}of{n}.c{bflag closed}"
@@ -646,8 +665,8 @@ def pieces5 (isId : Bool) (n : Nat) (p : RefPoly) : Op5 → List RefPoly × Bool
     match kind with
     | "meet" => ([p.meet q], true)
     | "join" => ([p, q], false)
-    | "diff" => (q.cs.map fun c => p.addCons [c.neg], false)
     | _ => ([if feasible n q.cs then p else emptyP true n], false)      -- tel: `X` when `Y` is not empty
+  | .diff oct _ m2 _ _ => ((rows5 oct n m2).map fun c => p.addCons [c.neg], false)
   | .concat oct n2 _ m2 => ([p.concat ⟨true, n2, rows5 oct n2 m2⟩], true)
   | .embed _ false k => ([p.addDimsEmbed k], true)
   | .embed _ true k => ([p.addDimsProject k], true)
